@@ -907,5 +907,5 @@ func (n *node) build() slog.Attr {
 }
 
 func main() {
-	hx.Main(map[string]hx.Area{"log": logArea{}, "stress": stressArea{}, "recovery": recoveryArea{}})
+	hx.Main(map[string]hx.Area{"log": logArea{}, "stress": stressArea{}, "recovery": recoveryArea{}, "sched": schedArea{}})
 }
